@@ -1,7 +1,12 @@
 #!/bin/sh
-# runs every thorough check once (evidence redirected: this is a validation run, not the committed evidence)
+# runs every thorough check once on a frozen copy of /repo's HEAD (evidence redirected: this is a validation run,
+# not the committed evidence; /repo's working tree may have a seeded patch applied by tools/seedtest.py meanwhile)
 cd "$(dirname "$0")/.."
-export VERIF_EVIDENCE_DIR=/tmp/thorough-evidence VERIF_REPLAY_DIR=/tmp/thorough-replay
+FROZEN=/tmp/thorough-repo-$$
+rm -rf $FROZEN; mkdir -p $FROZEN
+git -C /repo archive HEAD src include utest/test_data | tar -x -C $FROZEN
+export VERIF_REPO=$FROZEN VERIF_EVIDENCE_DIR=/tmp/thorough-evidence VERIF_REPLAY_DIR=/tmp/thorough-replay
 for p in ${*:-C01 C02 C03 C04 C05 C06 C07 C08 C09 C10 C11 C12 C13 C14 C15 C16 C17 C18}; do
   /usr/bin/time -f "$p %e s" ./check $p --tier thorough 2>&1 | grep -E "verdict|VIOLATION|HARNESS|KNOWN| s$|job "
 done
+rm -rf $FROZEN
